@@ -25,6 +25,7 @@ RULE = (
     "non-trivial = at least one non-None write and one conversion"
 )
 RULE += " 35% of the histories contain the block-diagonal loop of a caller that keeps one index buffer per axis (or one for both) and refills it in place between consecutive writes (same array objects, other contents)."
+RULE += " After a rejected write the container is converted once more: it still is the accumulation of the accepted blocks."
 RULE += " Dense blocks are handed over in element types float64 / int64 / int32 / float32 / bool / nested Python lists and in C, Fortran, strided and transposed memory layouts; sparse blocks in float64 / int64 / float32."
 COMPONENTS = {
     "real": ["cardillo.utility.coo_matrix.CooMatrix", "scipy.sparse"],
@@ -482,7 +483,27 @@ def execute(plan, out, log):
                         f"op {k}: block of shape {op['vshape']} accepted for index sets of sizes ({len(rres)}, {len(cres)})",
                     )
                 )
-            break  # nothing is promised about the container after a rejected write
+            if out["violations"]:
+                break
+            # a rejected write is not a write: the container still converts to the accumulation of the accepted blocks
+            # (the caller catches the error and carries on)
+            for fmt in ("toarray", FORMATS[k % len(FORMATS)]):
+                try:
+                    got = _convert(coo, fmt)
+                except Exception as e:
+                    out["violations"].append(violation("rejected_write_left_traces", fmt, f"op {k}: after a rejected write ({op['val']['k']} block of shape {op['vshape']}) the conversion raised {type(e).__name__}: {e}"))
+                    break
+                if got.shape != dense.shape or not np.array_equal(got, dense):
+                    out["violations"].append(
+                        violation(
+                            "rejected_write_left_traces",
+                            fmt,
+                            f"op {k}: after a rejected write ({op['val']['k']} block of shape {op['vshape']} for index sets of sizes ({len(rres)}, {len(cres)})) {fmt} differs from the accumulation of the accepted blocks (max diff {float(np.max(np.abs(got - dense))) if got.shape == dense.shape else 'shape'})",
+                        )
+                    )
+                    break
+            out["probes"]["converted_after_rejected_write"] += 1
+            break
     if BUFFERS.get("reused"):
         out["probes"]["index_buffer_refilled_in_place"] += BUFFERS["reused"]
     out["steps"] = len(plan["ops"])
